@@ -143,7 +143,7 @@ package pdf
 //@   ensures s.src.fails && old(avail(s)) < len(pat) ==> err != nil && !malformed(err)
 
 //@ func (*scanner).tryHex (s) (b, ok)
-//@   tags C01 C04 C05
+//@   tags C01 C04 C05 C19 C20
 //@   requires R(s)
 //@   assigns s.filePos, s.pos, s.used, s.err, elems(s.buf), s.src.rdpos
 //@   ensures R(s) && scanFrame(s)
